@@ -16,7 +16,7 @@ package dao
 //@ ensures[store] result.Store != nil && fresh(result.Store) && result.Store.private && result.Store.ps == storage.Store(dao.Store) && len(result.Store.MemoryStore.mem) == 0 && len(result.Store.MemoryStore.stor) == 0
 //@ ensures[cache] result.nativeCache != nil && fresh(result.nativeCache) && len(result.nativeCache) == 0
 
-//@ prop C07
+//@ prop C06,C07
 //@ pkg-invariant ErrHasConflicts != nil && ErrAlreadyExists != nil
 // On-chain conflict lookup: a transaction is declared free of on-chain conflicts either
 // straight after the first lookup (no record, a block, an outdated record) or after the
